@@ -47,3 +47,32 @@ harness! {
         cover!(want && a.board.r != b.board.r);
     }
 }
+
+// ---- C17: the styled list of an EMPTY chain over an arbitrary live board: every number policy,
+// style, status policy and stored outcome (v2: the first version built Board::initial() under an
+// unwinding bound of 10) ----
+use super::verif_kani::Buf64;
+use core::fmt::Write as _;
+fn status_token(o: Option<Outcome>) -> &'static [u8] {
+    match o { None => b"*", Some(Outcome::Draw(_)) => b"1/2-1/2", Some(Outcome::Win { side: Color::White, .. }) => b"1-0", Some(Outcome::Win { side: Color::Black, .. }) => b"0-1" }
+}
+harness! {
+    #[kani::unwind(14)]
+    fn c17_styled_list_empty_chain_v2() {
+        let outcome = any_outcome();
+        let chain = BaseMoveChain::<NoRepeat> { start: ab::any_raw(), board: ab::any_board(), repeat: NoRepeat, stack: Vec::new(), outcome };
+        let nums = match vk::any_u8() % 3 { 0 => NumberPolicy::Omit, 1 => NumberPolicy::FromBoard, _ => NumberPolicy::Custom(vk::any_u16() as usize) };
+        let style = match vk::any_u8() % 3 { 0 => moves::Style::San, 1 => moves::Style::SanUtf8, _ => moves::Style::Uci };
+        let show = vk::any_bool();
+        let mut o = Buf64 { b: [0; 64], n: 0 };
+        assert!(write!(o, "{}", chain.styled(nums, style, if show { GameStatusPolicy::Show } else { GameStatusPolicy::Hide })).is_ok());
+        // no moves: the text is the status token alone (matching the STORED outcome), or nothing
+        let want: &[u8] = if show { status_token(outcome) } else { b"" };
+        assert!(o.n == want.len());
+        let mut i = 0; while i < 7 { if i < want.len() { assert!(o.b[i] == want[i]); } i += 1; }
+        let mut u = Buf64 { b: [0; 64], n: 0 };
+        assert!(write!(u, "{}", chain.uci()).is_ok() && u.n == 0);
+        cover!(show && o.n == 7);
+        cover!(!show);
+    }
+}
